@@ -69,6 +69,27 @@ def check_bool_reader(ctx, FB, crate, fn, width):
     return n_cases
 
 
+def check_assert_empty(ctx, FB):
+    """assert_empty(body_size, ..): Ok exactly for 0 (the size guard of messages without a body, used by C04/C09)"""
+    F = FB["wow_world_messages"]
+    fn = F.fn("crate::util::functions::shared::assert_empty")
+    if fn is None:
+        ctx.violate("leaf.codecs", "anchor|assert_empty", "util::functions::shared::assert_empty not found (anchor disappeared)")
+        return 0
+    n = 0
+    for size in (0, 1, 2, 255, 256, 0xFFFF, 0xFFFFFFFF):
+        n += 1
+        m = Mini(FB, "wow_world_messages")
+        m.overrides = {"::ParseError::new": lambda a: ("parse-error",), "std::convert::Into::into": lambda a: a[0]}
+        res, err = _run(m, fn["path"], [size, 0x1DC, "MSG"])
+        ok = isinstance(res, tuple) and res[0] == ("Ok" if size == 0 else "Err")
+        if err or not ok:
+            ctx.violate("leaf.codecs", "wow_world_messages::assert_empty", f"assert_empty(body_size = {size}) {err or 'returns ' + repr(res)[:80]}: a message without body members must be accepted exactly when the body is empty",
+                        fn["file"], fn["line"])
+            break
+    return n
+
+
 def check_guid_reader(ctx, FB, crate, fn):
     """read_guid: 8 bytes, little endian, handed to Guid::new unchanged"""
     toks = _toks(["any"] * (8 + EXTRA))
@@ -582,6 +603,7 @@ def run(ctx):
     for k, floor in (("cstring", 4), ("sized", 1), ("fixed", 3), ("bool", 6), ("guidrd", 1)):
         if found[k] < floor:
             ctx.violate("leaf.codecs", f"anchor|{k}", f"only {found[k]} {k} string readers found, expected at least {floor} (anchor disappeared)")
+    cases += check_assert_empty(ctx, FB)
     cases += check_builtins(ctx, FB)
     ctx.rule("leaf.codecs", fns, floor=11, note=f"hand-written string / packed-guid codecs interpreted over {cases} input classes (every length 0..=255, every packed-guid mask)")
     ctx.assume("leaf codecs are decided per input class by abstract interpretation (bytes carry identity and a zero/non-zero class; lengths, counters and masks are concrete); "
